@@ -32,6 +32,7 @@ from vk import sym as S
 from vk.harness import ObResult, obligation
 from vk.tensor import P
 
+from . import codes
 from .codes import SEED, Cfg
 
 FE = "kaira/models/fec/encoders/polar_code.py"
@@ -100,7 +101,8 @@ def encoder(cfg):
             _ENC[key] = PolarCodeEncoder(k, N, **kw)
         # the encoder memoises its butterfly index table (mask_dict) on first use: fill it natively, so that a symbolic run never leaves a
         # lifted tensor behind on the cached object
-        _ENC[key](torch.zeros(1, k))
+        # (3 rows, mixed bits: every later contract call, batch 1 or 2, meets an object that was used before with ANOTHER batch size)
+        _ENC[key](((torch.arange(3 * k) * 5 % 3) % 2).reshape(3, k).float())
     return _ENC[key]
 
 
@@ -359,7 +361,12 @@ def sc_decoder(cfg, regime, clip=None):
         if clip is not None:
             kw["clip"] = clip
         _SC[key] = SuccessiveCancellationDecoder(encoder(cfg), **kw)
+        _warm(_SC[key], cfg[1])
     return _SC[key]
+
+
+def _warm(dec, N):
+    codes.warm(dec, N, soft=True)
 
 
 def _sc_cfgs(tier, regimes=("min_sum", "sum_product")):
@@ -505,6 +512,7 @@ def bp_decoder(cfg, regime, iters, early_stop=False):
         from kaira.models.fec.decoders.belief_propagation_polar import BeliefPropagationPolarDecoder
 
         _BP[key] = _quiet(BeliefPropagationPolarDecoder, encoder(cfg), regime=regime, bp_iters=iters, early_stop=early_stop)
+        _warm(_BP[key], cfg[1])
     return _BP[key]
 
 
